@@ -23,6 +23,9 @@ def main():
     sys.stdout = os.fdopen(saved, 'w', buffering=1)
     import warnings
     warnings.filterwarnings('ignore')
+    repo = os.environ.get('VERIF_REPO')
+    if repo and os.path.realpath(repo) != '/repo':
+        sys.path.insert(0, repo)      # run against a scratch worktree (seed testing); default is /repo itself
     try:
         import corebuild
         try:
